@@ -278,6 +278,9 @@ func (e *Engine) havocFields(st *State, b VTerm) {
 		if _, isSig := f.Type().Underlying().(*types.Signature); isSig {
 			continue
 		}
+		if !e.typeModelled(f.Type()) {
+			continue
+		}
 		key := "fld:" + b.T.String() + "." + f.Name()
 		v := e.freshValue(f.Name(), f.Type(), st)
 		switch vv := v.(type) {
